@@ -101,6 +101,15 @@ def instantiate(it, sets):
             ax.append(f'(assert (=> (= {b} 1.0) (= {_f("pow", b, e)} 1.0)))')
             ax.append(f'(assert (=> (= {e} 2.0) (= {_f("pow", b, e)} (* {b} {b}))))')
             ax.append(f'(assert (=> (and (= {e} (- 1.0)) (not (= {b} 0.0))) (= (* {_f("pow", b, e)} {b}) 1.0)))')
+    if 'pow_pow' in sets:
+        # (b^e1)^e2 = b for b > 0 and e1 e2 = 1
+        for (b1, e1), (b2, e2) in itertools.permutations(pows, 2):
+            ax.append(f'(assert (=> (and (> {b1} 0.0) (= {b2} {_f("pow", b1, e1)}) (= (* {e1} {e2}) 1.0)) (= {_f("pow", b2, e2)} {b1})))')
+        # (c/b)^e * b'^e = c^e ... and the quotient rule (x/y)^e = x^e / y^e is supplied where both sides occur
+        for (b1, e1), (b2, e2) in itertools.permutations(pows, 2):
+            for (b3, e3) in pows:
+                ax.append(f'(assert (=> (and (> {b1} 0.0) (> {b2} 0.0) (= {e1} {e2}) (= {e2} {e3}) (= {b3} (/ {b1} {b2}))) '
+                          f'(= (* {_f("pow", b3, e3)} {_f("pow", b2, e2)}) {_f("pow", b1, e1)})))')
     if 'pow_mono' in sets:
         # for base > 0: monotone in the base with the sign of the exponent
         for (b1, e1), (b2, e2) in itertools.combinations(pows, 2):
@@ -110,7 +119,15 @@ def instantiate(it, sets):
         for b, e in pows:
             ax.append(f'(assert (=> (and (> {b} 1.0) (< {e} 0.0)) (< {_f("pow", b, e)} 1.0)))')
             ax.append(f'(assert (=> (and (> {b} 1.0) (> {e} 0.0)) (> {_f("pow", b, e)} 1.0)))')
-    return ax
+    # functions that only occur in axioms (the other half of an identity) still need a declaration
+    import re as _re
+    decls = []
+    for name in sorted(set(_re.findall(r'\(r\.([a-z0-9_]+) ', ' '.join(ax)))):
+        if 'r.' + name not in it.ufdecl:
+            ar = 2 if name in ('pow', 'atan2', 'hypot', 'fmod') else 1
+            it.ufdecl['r.' + name] = 1
+            decls.append(f'(declare-fun r.{name} ({" ".join(["Real"] * ar)}) Real)')
+    return decls + ax
 
 
 def obligations(it, sets):
